@@ -156,7 +156,12 @@ impl<'tcx> Cx<'tcx> {
                         }
                         ty::Tuple(_) => (format!("{}", f.as_usize()), "tuple".to_string()),
                         ty::Closure(d, _) | ty::Coroutine(d, _) | ty::CoroutineClosure(d, _) => {
-                            (format!("{}", f.as_usize()), format!("closure:{}", self.id(*d)))
+                            // name the captured place (e.g. `self__max_buffer_size`) when the closure is local
+                            let nm = d
+                                .as_local()
+                                .and_then(|ld| self.tcx.closure_captures(ld).get(f.as_usize()).map(|c| c.to_symbol().to_string()))
+                                .unwrap_or_else(|| format!("{}", f.as_usize()));
+                            (nm, format!("closure:{}", self.id(*d)))
                         }
                         _ => (format!("{}", f.as_usize()), "?".to_string()),
                     };
